@@ -24,7 +24,7 @@ func init() {
 			"x suffix in {none, 1 byte, 8 bytes, 5000 bytes, a valid next block header} x source kind in {*bufio.Reader of 13 sizes given to NewReader, the same given to Reset, bytes.Reader, bytes.Buffer, strings.Reader, custom io.ByteReader} x Read policy {1, 4096, 1 MiB}; " +
 			"oracle: after io.EOF the bytes still readable from the source are exactly the suffix; non-trivial = the suffix is not empty",
 		Assumptions: []string{"the bytes left in the source are observed by draining the very object the Reader was given"},
-		Quick:       TierSpec{MaxDev: -1, Shards: 4, ShardDepth: 3, BudgetS: 150},
+		Quick:       TierSpec{MaxDev: -1, Shards: 4, ShardDepth: 3, BudgetS: 600},
 		Thorough:    TierSpec{MaxDev: -1, Shards: 8, ShardDepth: 3, BudgetS: 1200},
 		Harness:     c05Harness,
 	})
